@@ -368,8 +368,9 @@ def run_check(mod, tier, seed):
     if harness_errors:
         for e in harness_errors[:10]:
             print('HARNESS-ERROR: ' + str(e)[:3000])
-        return 2
-    return 1 if n_unknown else 0
+    if n_unknown:
+        return 1
+    return 2 if harness_errors else 0
 
 
 def run_replay(mod, path, quiet=False):
